@@ -211,6 +211,10 @@ def programs(draw, tier):
         prog['careless'] = [k for k in range(nev) if draw(st.booleans())]
         # (the failures of these events are defused by a callback, so that the run does not depend on the watchers)
         prog['defusers'] = sorted(set(prog['defusers']) | (failed_events & (set(prog['watch']) | set(prog['careless']))))
+    if draw(st.integers(0, 3)) == 0:
+        # native activities that wait for an event for a while and give up (dates between the phases of the processes)
+        prog['impatient'] = [[draw(st.integers(0, nev - 1)), prog['t0'] + draw(st.integers(0, 4)) + 0.03125,
+                              draw(st.sampled_from(['until', 'cancel']))] for _ in range(draw(st.integers(1, 2)))]
     return prog
 
 
@@ -295,6 +299,12 @@ class C18(Check):
             raise InvalidCase('order-dependent')
         except RecursionError:
             raise InvalidCase('too deep')
+        for (k, date, kind) in prog.get('impatient', ()):
+            ev = model.events[k]
+            if ev.state is not None and ev.state[0] == 'fail':
+                if ev.time < date:
+                    raise InvalidCase('the impatient native waiter is still there when the event fails')
+                out.features.add('failure_after_abandoned_native_wait')
         stop_time = getattr(model, 'stop_time', None)
         crash_time = want['now'] if model.crash is not None else None
         soft = stop_time if stop_time is not None else crash_time       # entries at this time are optional
